@@ -7,6 +7,7 @@ import (
 	"fmt"
 	"sort"
 	"testing"
+	"time"
 
 	"github.com/canopy-network/canopy/lib"
 	"github.com/canopy-network/canopy/store"
@@ -31,13 +32,45 @@ type verifier interface {
 
 // safeVerify calls VerifyProof and converts an escaping panic into a reported value.
 func safeVerify(v verifier, key, value []byte, member bool, root []byte, proof []*lib.Node) (ok bool, err lib.ErrorI, panicked any) {
-	defer func() {
-		if r := recover(); r != nil {
-			panicked = r
-		}
+	type res struct {
+		ok  bool
+		err lib.ErrorI
+		pan any
+	}
+	ch := make(chan res, 1)
+	go func() {
+		var r res
+		defer func() {
+			if p := recover(); p != nil {
+				r.pan = p
+			}
+			ch <- r
+		}()
+		r.ok, r.err = v.VerifyProof(key, value, member, root, proof)
 	}()
-	ok, err = v.VerifyProof(key, value, member, root, proof)
-	return
+	select {
+	case r := <-ch:
+		return r.ok, r.err, r.pan
+	case <-time.After(verifyBudget):
+		// a verification takes about a millisecond; one that has not returned after verifyBudget is looping (a rebuilt tree
+		// with a cycle makes the walk run for ever and eat memory): report it and leave before the process is killed
+		fmt.Printf("VerifyProof did not return within %v: key=%x member=%v proof=%s\n", verifyBudget, key, member, fmtProof(proof))
+		return false, nil, fmt.Sprintf("VerifyProof did not return within %v (hangs; normal duration ~1 ms)", verifyBudget)
+	}
+}
+
+const verifyBudget = 60 * time.Second
+
+func fmtProof(p []*lib.Node) string {
+	s := ""
+	for _, n := range p {
+		if n == nil {
+			s += "[nil]"
+			continue
+		}
+		s += fmt.Sprintf("[key=%x val=%x.. bm=%d]", n.Key, n.Value[:min(4, len(n.Value))], n.Bitmask)
+	}
+	return s
 }
 
 func toLib(p []sm.ProofNode) []*lib.Node {
@@ -61,7 +94,21 @@ func cloneProof(p []*lib.Node) []*lib.Node {
 // mutateProof applies one generated structural or bit-level mutation; returns the mutant and a label.
 func mutateProof(t *rapid.T, honest []*lib.Node, other []*lib.Node) ([]*lib.Node, string) {
 	p := cloneProof(honest)
-	switch rapid.IntRange(0, 13).Draw(t, "mut") {
+	switch rapid.IntRange(0, 15).Draw(t, "mut") {
+	case 14, 15:
+		// a sibling whose key extends (or is a prefix of) the key of the element before it: the rebuilt parent then gets the
+		// key of its own child - a node that is its own descendant
+		if len(p) > 1 {
+			i := rapid.IntRange(1, len(p)-1).Draw(t, "i")
+			if prev := sm.DecodeKey(p[i-1].Key); len(prev) > 1 {
+				if rapid.Bool().Draw(t, "extend") {
+					p[i].Key = sm.EncodeKey(append(append(sm.Bits{}, prev...), byte(rapid.IntRange(0, 1).Draw(t, "bit"))))
+					return p, "sibling-extends-previous-key"
+				}
+				p[i].Key = sm.EncodeKey(prev[:len(prev)-1])
+				return p, "sibling-is-prefix-of-previous-key"
+			}
+		}
 	case 0:
 		if len(p) > 0 {
 			return p[:len(p)-1], "truncate-tail"
